@@ -61,7 +61,7 @@ func small(n uint64) crypto.Hash {
 	return h
 }
 
-func nN(h crypto.Hash) string { return vh.BytesAsN(h[:]) }
+func nN(h crypto.Hash) string { return num32(h[:]) }
 
 // the chained hash of a snapshot set (the property's round hash) and the Blake3
 // evaluations along it, for the model's table
@@ -212,6 +212,9 @@ func newWorld(c *vh.Ctx, cs Case, tbl *[]string) (*world, string) {
 	for i := 0; i < cs.K; i++ {
 		var id crypto.Hash
 		copy(id[:], idr.Bytes(32))
+		if cs.Seed%5 != 0 { // mostly short ids: cheaper case terms
+			id = small(100000 + cs.Seed%1000*10 + uint64(i))
+		}
 		w.ids = append(w.ids, id)
 	}
 	finals := make([]*kernel.FinalRound, cs.K)
